@@ -361,6 +361,56 @@ class Gen:
                 + "\n".join(body) + "\n  func.return\n}\n")
 
 
+def hoist_chain_program(rng: random.Random):
+    """Top-level chains around ONE accelerator X: a conditional that sets X up in one or both branches, then several
+    setup/launch pairs of X that each differ from the previous configuration in a field or two, separated by conditionals / loops
+    that do NOT touch X (they drive the other accelerator, call an annotated function, or are empty). The legality checks of
+    hoisting a setup into a conditional and of merging setups have to look across those separators."""
+    g = Gen(rng, full=True, depth=1, accs=ACCS)
+    x, y = rng.sample(ACCS, 2)
+    vals = [f"%x{i}" for i in range(NARGS)]
+    ind, out = "  ", []
+    g.sticky = 0.9
+
+    def pair():
+        g.scope_accs = [[x]]
+        return g.setup_launch(list(vals), ind, {})
+
+    def branch(acc, n):
+        g.scope_accs = [[acc]]
+        lines = []
+        for _ in range(n):
+            lines += g.setup_launch(list(vals), ind + "  ", {})
+        return lines
+
+    def sep_other():
+        k = rng.random()
+        c = rng.choice(["%c0", "%c1"])
+        if k < 0.45:
+            return [f"{ind}scf.if {c} {{"] + branch(y, rng.randint(0, 1)) + [f"{ind}}} else {{"] + branch(y, rng.randint(0, 1)) + [f"{ind}}}"]
+        if k < 0.6:
+            return [f"{ind}scf.if {c} {{", f'{ind}  func.call @g() {{"accfg.effects" = #accfg.effects<none>}} : () -> ()', f"{ind}}} else {{", f"{ind}}}"]
+        if k < 0.8:
+            lbn, ubn, stn = g.loop_bounds()
+            i = g.fresh("i")
+            return [f"{ind}scf.for {i} = {lbn} to {ubn} step {stn} {{"] + branch(y, 1) + [f"{ind}}}"]
+        return []
+
+    if rng.random() < 0.6:
+        out += pair()
+    for _ in range(rng.randint(1, 2)):
+        c = rng.choice(["%c0", "%c1"])
+        out += [f"{ind}scf.if {c} {{"] + branch(x, rng.randint(0, 1)) + [f"{ind}}} else {{"] + branch(x, rng.randint(0, 1)) + [f"{ind}}}"]
+        for _ in range(rng.randint(1, 3)):
+            out += pair()
+            out += sep_other()
+        out += pair()
+    sig = ", ".join([f"%x{i} : i32" for i in range(NARGS)] + ["%c0 : i1", "%c1 : i1"]
+                    + [f"%{n}{b} : index" for b in range(NBOUNDS) for n in ("lb", "ub", "st")])
+    return ("func.func private @g() -> ()\n" f"func.func @f({sig}) {{\n" "  %lv = arith.constant 1 : i5\n"
+            + "".join(f"  %k{k} = arith.constant {k} : index\n" for k in range(5)) + "\n".join(out) + "\n  func.return\n}\n")
+
+
 def redundancy_program(rng: random.Random):
     """Small programs over ONE accelerator whose setups draw from three configurations that differ in one field each: a prefix,
     a loop whose body alternates / restores configurations (also inside conditionals and an inner loop), a suffix.  The space
